@@ -144,8 +144,10 @@ def set_sampler(rnd, mod, spec, depth):
     S = type(mod)
     nsm = rnd.choice([0, 1, 2, 3, 5])
     slots = rnd.sample(range(128), nsm)
-    if rnd.random() < 0.15 and nsm:
-        slots[0] = 127
+    if rnd.random() < 0.45 and nsm:          # the boundary slots: the last one uses the highest chunk numbers (0xff, 0x100)
+        slots = [x for x in slots if x != 127][:nsm - 1] + [127]
+    if rnd.random() < 0.3 and nsm > 1 and 0 not in slots:
+        slots[0] = 0
     for i in slots:
         s = S.Sample()
         s.format = rnd.choice(list(S.Format))
